@@ -54,7 +54,10 @@ impl Interpreter {
                 self.state.clone()
             }
             ScriptBit::If { code, pass, fail } => {
-                let predicate = self.state.stack.pop_bool()?;
+                // Pop from a copy so that a failing step leaves the interpreter state untouched
+                let mut stack = self.state.stack.clone();
+                let predicate = stack.pop_bool()?;
+                self.state.stack = stack;
                 // OP_NOTIF runs its first branch when the condition is false
                 let predicate = match code {
                     OpCodes::OP_NOTIF | OpCodes::OP_VERNOTIF => !predicate,
